@@ -14,8 +14,9 @@ TOL = 1e-6
 def gen_gcc(rng):
     n = rng.choice([2, 3, 4, 5, 6, 7, 9, 12, 16, 24, 40])
     T = [float(rng.randrange(30, 60) * 10)]
+    latent = rng.random() < 0.3          # 0.01 K intervals: latent streams make near-vertical GCC segments
     for _ in range(n - 1):
-        T.append(T[-1] - float(rng.choice([10, 10, 20, 30, 50, 5])))
+        T.append(round(T[-1] - float(rng.choice([10, 10, 20, 30, 50, 5] + ([0.01, 0.01, 0.01] if latent else []))), 6))
     shape = rng.choice(["walk", "walk", "pockets", "threshold_top", "threshold_bot", "two_pinch", "exact_close", "monotone"])
     H = []
     if shape == "monotone":
@@ -25,7 +26,12 @@ def gen_gcc(rng):
         h = float(rng.randrange(0, 12) * 50)
         for i in range(n):
             H.append(h)
-            h = max(0.0, h + float(rng.randrange(-6, 7) * 50))
+            step = float(rng.randrange(-6, 7) * 50)
+            if latent and i + 1 < n and T[i] - T[i + 1] < 0.02:
+                step = float(rng.choice([-5000, 5000, 3000, -3000, 4200]))      # latent duty over 0.01 K
+            elif latent and rng.random() < 0.3:
+                step += rng.choice([0.4691, -0.4691, 0.25])                        # small kinks next to the steps
+            h = max(0.0, h + step)
         # make sure there is a zero
         if min(H) > 0:
             m = min(H); H = [x - m for x in H]
@@ -157,15 +163,18 @@ def oracle(case, res):
     # NP at rows and at interval midpoints
     Tf = [frac(t) for t in T]; NPf = [frac(v) for v in NP]
     pts = list(Tf) + [(a + b) / 2 for a, b in zip(Tf, Tf[1:])]
-    for x in pts:
+    # a pocket that closes within TOL (in temperature) of an existing row gets no row of its own, so inside the
+    # neighbouring interval the flattened curve may differ from the exact running minimum by slope * TOL
+    steep = max([abs(float(Hs0[i]) - float(Hs0[i + 1])) / float(Ts0[i] - Ts0[i + 1]) for i in range(len(Ts0) - 1)] or [0.0])
+    for k, x in enumerate(pts):
         got = float(pl(Tf, NPf, x)); want = float(np_at(x))
-        if abs(got - want) > eps:
+        if abs(got - want) > eps + (2 * TOL * steep if k >= len(Tf) else 0.0):
             side = "above" if x >= thp else ("below" if x <= tcp else "between")
             fails.append(("np_eq_running_min", f"T={float(x)} ({side} the pinch): H_np={got}, running minimum of the GCC={want}", None)); break
     # breakpoints exactly where pockets close
     new = [t for t in T if all(abs(t - o) > TOL for o in T0)]
     exp = [float(c) for c in closings if all(abs(float(c) - o) > TOL for o in T0)]
-    if sorted(round(x, 5) for x in new) != sorted(round(x, 5) for x in exp):
+    if len(new) != len(exp) or any(abs(a - b) > 1e-5 for a, b in zip(sorted(new), sorted(exp))):
         fails.append(("breakpoint_iff_pocket_closes", f"new rows {sorted(new)} expected closings {sorted(exp)}", None))
     # ends
     if abs(NP[0] - H0[0]) > eps or abs(NP[-1] - H0[-1]) > eps:
